@@ -55,6 +55,7 @@ class VThread:
         self.log = []  # outcomes of requests
         self.in_body = []  # stack of requests whose body the thread is in
         self.inflight = None
+        self.events = []
         self.thread = None
 
 
@@ -204,12 +205,15 @@ class Runtime:
         fake_fcntl = types.SimpleNamespace(lockf=lockf, LOCK_SH=LOCK_SH, LOCK_EX=LOCK_EX, LOCK_NB=LOCK_NB, LOCK_UN=LOCK_UN)
 
         def vopen(path, flags, *a):
+            # system calls are preemption points
+            rt.point(rt.cur(), ("sys", "open", path), lambda: True)
             n = kernel.next_fd.get(proc, 3)
             kernel.next_fd[proc] = n + 1
             kernel.fds[(proc, n)] = path
             return n
 
         def vclose(fd):
+            rt.point(rt.cur(), ("sys", "close", fd), lambda: True)
             path = kernel.fds.pop((proc, fd))
             # POSIX: closing any descriptor of the file drops every lock the process holds on it
             kernel.table.get(path, {}).pop(proc, None)
@@ -234,6 +238,22 @@ class Runtime:
         ns = {"__name__": f"pharmpy_lock_proc{proc}", "__builtins__": b}
         exec(compile(self.source, f"lock.py[proc{proc}]", "exec"), ns)
         ns["_classes"] = (VLock, VRLock, VCondition)
+        # observe (without changing behaviour) when a thread-level lock context has been left
+        import contextlib
+        orig_tll = ns["thread_level_lock"]
+
+        @contextlib.contextmanager
+        def observed_thread_level_lock(key, shared=False, blocking=True, reentrant=False):
+            entered = False
+            try:
+                with orig_tll(key, shared, blocking, reentrant):
+                    entered = True
+                    yield
+            finally:
+                if entered:
+                    rt.cur().events.append(("tl-exit", key, shared))
+
+        ns["thread_level_lock"] = observed_thread_level_lock
         return ns
 
     # ------------------------------------------------------------ scheduling
